@@ -39,7 +39,37 @@ def handleUsage (args : List String) : String :=
       | none => "bad-cmd"
   | _ => "bad-op"
 
+/-- `usageerr <depth> CMD … <UI> ARGV <n> tok…` (a command without subcommands): what a `MissingRequiredArgument`
+error carries - `MR <n> <required-usage string>… L <usage line>` - or the outcome otherwise -/
+def handleUsageErr (args : List String) : String :=
+  match args with
+  | d :: rest =>
+    match d.toNat? with
+    | none => "bad-op"
+    | some depth =>
+      match (do let c ← decCmd (depth + 3); let u ← decUInfo; pure (c, u) : Dec _).run rest with
+      | some ((cmd, u), "ARGV" :: _ :: toks) =>
+        match toks.mapM bytesOfHex with
+        | none => "bad-op"
+        | some argv =>
+          let b := Build.buildAll (depth + 2) cmd
+          let toks := if b.settings.noBinaryName then argv else argv.drop 1
+          match Parser.getMatchesWith (fun _ _ => false) (depth + 2) b toks {} with
+          | none => "OUT-OF-FUEL"
+          | some (_, .ok ()) => "OK"
+          | some (p, .error .missingRequiredArgument) =>
+            match Validator.potential b p.args with
+            | none => "PANIC"
+            | some pot =>
+              match Usage.missingRequiredError b u p.args pot with
+              | none => "PANIC"
+              | some (rs, line) => s!"MR {rs.length}" ++ String.join (rs.map fun r => " " ++ hexOfBytes r) ++ " L " ++ hexOfBytes line
+          | some (_, .error e) => "ERR " ++ fmtEK e
+      | _ => "bad-cmd"
+  | _ => "bad-op"
+
 def handleL10 (cmd : String) (args : List String) : Option String :=
-  if cmd == "usage" then some (handleUsage args) else none
+  if cmd == "usage" then some (handleUsage args)
+  else if cmd == "usageerr" then some (handleUsageErr args) else none
 
 end Clap.Driver
